@@ -12,9 +12,9 @@ def scope(field, exp, got, info):
     """C11 owns Snapshot().VisitedNodes after every step and the line at the head of every
     node body, which renders visited()/visited_count() for every node and for a name that is
     not a node."""
-    if info["after_end"]:
+    if info["after_end"] and info["ev"] == "next" and info["family"] != "visits":
         return False
-    if field == "visits":
+    if field in ("visits", "snapshot", "snapshot-changed"):
         return True
     if field == "out" and isinstance(exp, dict) and isinstance(got, dict):
         return (exp.get("k") == "line" and got.get("k") == "line" and exp.get("node") == got.get("node")
@@ -32,7 +32,10 @@ SPEC = dict(
     sc=dict(family="visits", n=(220, 1500), mc=dict(max_calls=12, after_end=1), mc_thorough=dict(max_calls=16),
             invariants=INV, properties=PROPS, bugs=[("visitOnEntry", INV, [])]),
     cs=[dict(family="visits", n=(80, 500), paths=(4, 6), calls=50, layouts=True,
-             label="YarnTrace: random walks through jump graphs")],
+             label="YarnTrace: random walks through jump graphs"),
+        # counts are "unaffected by anything but jumps and restores": restores between nodes of different tracking modes
+        dict(family="visits", n=(40, 250), paths=(3, 5), calls=45, mode="snap",
+             label="YarnTrace: jump graphs with Snapshot / RestoreAt interleaved (three runners)")],
     rule="jump graphs on <=3 nodes (self-loops, cycles, jumps out of nested option/if bodies, jumps by expression and through a probe), "
          "tracking in {none, always, never} per node: all paths up to 12/16 calls enumerated by TLC and replayed; random longer walks "
          "trace-validated; visited/visited_count rendered at every node entry for every node and a non-node, Snapshot().VisitedNodes "
